@@ -159,7 +159,7 @@ def cpSetRange (p : CP) : Outcome (Option Span × CP) := do
     let p := { p with rest := r }
     if typ == tokRbracket then
       let p := if minOpen || tok == [41] then p.setErr else p
-      match newSpan min false min false with
+      match newSpanAliased min with
       | .panic => .panic
       | .err => .ok (none, p.setErr)
       | .ok sp => .ok (some sp, p)
